@@ -49,6 +49,7 @@ func (fc *FnCtx) doCall(res ssa.Value, c *ssa.CallCommon, in ssa.Instruction) {
 		}
 		rv := fc.freshVal(res.Name(), res.Type())
 		fc.noAliasLocal(rv)
+		fc.recordExisting(rv)
 		return rv
 	}
 	_ = rt
